@@ -1,4 +1,177 @@
-From Coq Require Import ZArith List Bool.
-From V Require Import Gen.TimespanGen Model.Timespan Model.Calib.
-Theorem stub : True. Proof. exact I. Qed.
-Print Assumptions stub.
+(* C04 -- Validity ranges never overlap; decertify removes exactly the requested range.
+   Statements only; every proof is `exact <lemma>` from Proofs/CalibProofs.v (the one `_refuted` witness is
+   computed).  The model (Model/Calib.v) calls the REGENERATED `py_overlaps` / `py_isEmpty` of
+   Gen/TimespanGen.v, so these theorems are re-checked against the comparisons the code has now.
+
+   step true  = the code as it is (with the batch check of /repo commit 8f28e85)
+   step false = the code before that repair (used only by the refutation)
+   wf t        : GEN_MIN <= begin < end <= GEN_MAX, or t is the canonical empty timespan (C11)
+   mem x t     : begin <= x < end
+   Inv s       : every stored timespan is wf, and at every instant at most one dataset is valid per
+                 (collection, dataset type, data ID)
+   valid_at s c ty d x : the datasets valid at instant x, in table order. *)
+From Coq Require Import ZArith NArith List Bool Lia.
+From V Require Import Base.Tri Gen.TimespanGen Model.Timespan Proofs.TimespanProofs Model.Calib Proofs.CalibProofs.
+Import ListNotations.
+Open Scope N_scope.
+
+(* ---- the invariant, for every history ---- *)
+Theorem disjoint_inv : forall s h, Inv s -> Forall wf_op h ->
+  forall c ty d x, (length (valid_at (run true s h) c ty d x) <= 1)%nat.
+Proof. exact disjoint_inv_p. Qed.
+Print Assumptions disjoint_inv.
+
+Theorem disjoint_inv_from_empty : forall cs ts ds h, Forall wf_op h ->
+  forall c ty d x, (length (valid_at (run true (mkState cs ts ds []) h) c ty d x) <= 1)%nat.
+Proof. intros cs ts ds h. exact (disjoint_inv_p _ h (inv_empty cs ts ds)). Qed.
+Print Assumptions disjoint_inv_from_empty.
+
+Theorem inv_preserved : forall s h, Inv s -> Forall wf_op h -> Inv (run true s h).
+Proof. intros s h. exact (run_inv h s). Qed.
+Print Assumptions inv_preserved.
+
+(* row form: two different rows of one key never share an instant *)
+Theorem disjoint_rows : forall s, Inv s -> forall l1 r1 l2 r2 l3 x, calibs s = l1 ++ r1 :: l2 ++ r2 :: l3 ->
+  r_coll r1 = r_coll r2 -> r_ty r1 = r_ty r2 -> r_did r1 = r_did r2 -> mem x (r_ts r1) -> mem x (r_ts r2) -> False.
+Proof. exact inv_pairwise_p. Qed.
+Print Assumptions disjoint_rows.
+
+Theorem reachable_rows_wf : forall s h, Inv s -> Forall wf_op h -> Forall (fun r => wf (r_ts r)) (calibs (run true s h)).
+Proof. exact reachable_rows_wf_p. Qed.
+Print Assumptions reachable_rows_wf.
+
+(* WITHOUT the batch-distinctness check the invariant fails: one certify of two datasets with the same
+   dataset type + data ID (the defect repaired by 8f28e85; removing the check breaks `disjoint_inv`) *)
+Definition refute_state : state := mkState [(0, KCalibration)] [(0, true)] [0; 1] [].
+Definition refute_history : list op := [Certify 0 [mkRef 0 0 0; mkRef 1 0 0] (1000, 2000)%Z].
+Theorem disjoint_refuted_without_batch_check :
+  exists s h c ty d x, Inv s /\ Forall wf_op h /\ length (valid_at (run false s h) c ty d x) = 2%nat.
+Proof.
+  exists refute_state, refute_history, 0, 0, 0, 1500%Z.
+  split; [exact (inv_empty _ _ _)|]. split; [|vm_compute; reflexivity].
+  repeat (apply Forall_cons; [left; cbn; unfold GEN_MIN, GEN_MAX; lia|]). apply Forall_nil.
+Qed.
+Print Assumptions disjoint_refuted_without_batch_check.
+
+(* the same request on the code as it is now: refused, nothing changes *)
+Theorem batch_duplicates_refused_now : step true refute_state (hd (Remove 0) refute_history) = (refute_state, Err Conflict).
+Proof. vm_compute. reflexivity. Qed.
+Print Assumptions batch_duplicates_refused_now.
+
+(* ---- certify ---- *)
+Theorem refused_changes_nothing : forall chk s o s' e, step chk s o = (s', Err e) -> s' = s.
+Proof. exact refused_changes_nothing_p. Qed.
+Print Assumptions refused_changes_nothing.
+
+(* conflict_sem s c ty rs t :=
+     (two refs of the batch have the same data ID /\ t is not empty)
+  \/ (some stored row of collection c, type ty and a batch data ID shares an instant with t) *)
+Theorem certify_refused_iff : forall s c ty refs t,
+  lookup c (colls s) = Some KCalibration -> lookup ty (dtypes s) = Some true ->
+  refs <> [] -> Forall (fun f => f_ty f = ty) refs -> Forall (fun r => wf (r_ts r)) (calibs s) -> wf t ->
+  (snd (certify true s c refs t) = Err Conflict <-> conflict_sem s c ty refs t).
+Proof. exact certify_refused_iff_p. Qed.
+Print Assumptions certify_refused_iff.
+
+(* manager level (one dataset type of a mixed batch) *)
+Theorem certify_group_refused_iff : forall s c k ty rs t,
+  lookup ty (dtypes s) = Some true -> is_calib k = true -> Forall (fun r => wf (r_ts r)) (calibs s) -> wf t ->
+  (certify_group true s c k ty rs t = inr Conflict <-> conflict_sem s c ty rs t).
+Proof. exact certify_group_conflict_iff_p. Qed.
+Print Assumptions certify_group_refused_iff.
+
+Theorem certify_accepted_pointwise : forall s c ty refs t s' c' ty' d' x,
+  Forall (fun f => f_ty f = ty) refs -> certify true s c refs t = (s', Ok) ->
+  valid_at s' c' ty' d' x =
+  valid_at s c' ty' d' x ++
+  (if (c =? c') && (ty =? ty') && memb x t then map f_ds (filter (fun r => f_did r =? d') refs) else []).
+Proof. exact certify_accepted_pointwise_p. Qed.
+Print Assumptions certify_accepted_pointwise.
+
+(* ---- decertify ---- *)
+(* dec_cond c ty t sel c' ty' d' x := c' = c && ty' = ty && selected sel d' && x in t *)
+Theorem decertify_pointwise : forall s c ty t sel s' c' ty' d' x,
+  Inv s -> wf t -> decertify s c ty t sel = (s', Ok) ->
+  valid_at s' c' ty' d' x = if dec_cond c ty t sel c' ty' d' x then [] else valid_at s c' ty' d' x.
+Proof. exact decertify_pointwise_p. Qed.
+Print Assumptions decertify_pointwise.
+
+(* without the invariant (any well-formed table) the same holds up to the order of the list *)
+Theorem decertify_pointwise_any_table : forall c ty t sel l c' ty' d' x,
+  Forall (fun r => wf (r_ts r)) l -> wf t ->
+  Permutation.Permutation (va (decertify_rows c ty t sel l) c' ty' d' x)
+                          (if dec_cond c ty t sel c' ty' d' x then [] else va l c' ty' d' x).
+Proof. exact dec_pointwise_perm. Qed.
+Print Assumptions decertify_pointwise_any_table.
+
+Theorem decertify_frame : forall s c ty t sel s' c' ty' d' x,
+  Inv s -> wf t -> decertify s c ty t sel = (s', Ok) ->
+  (c' <> c \/ ty' <> ty \/ selected sel d' = false \/ ~ mem x t) ->
+  valid_at s' c' ty' d' x = valid_at s c' ty' d' x.
+Proof. exact decertify_frame_p. Qed.
+Print Assumptions decertify_frame.
+
+Theorem decertify_clears : forall s c ty t sel s' d' x,
+  Inv s -> wf t -> decertify s c ty t sel = (s', Ok) -> selected sel d' = true -> mem x t ->
+  valid_at s' c ty d' x = [].
+Proof. exact decertify_clears_p. Qed.
+Print Assumptions decertify_clears.
+
+Theorem decertify_ok_iff : forall s c ty t sel,
+  snd (decertify s c ty t sel) = Ok <-> (lookup c (colls s) = Some KCalibration /\ lookup ty (dtypes s) = Some true).
+Proof. exact decertify_ok_iff_p. Qed.
+Print Assumptions decertify_ok_iff.
+
+(* ---- remove ---- *)
+Theorem remove_pointwise : forall s ds c ty d x,
+  valid_at (fst (remove s ds)) c ty d x = filter (fun n => negb (n =? ds)) (valid_at s c ty d x).
+Proof. exact remove_pointwise_p. Qed.
+Print Assumptions remove_pointwise.
+
+(* ---- lookups: the unique overlapping dataset, or ambiguity, never an arbitrary one ---- *)
+Theorem lookup_span_spec : forall s c ty d q,
+  (forall ds, lookup_span s c ty d q = Unique ds <-> exists r, overlapping s c ty d q = [r] /\ r_ds r = ds) /\
+  (lookup_span s c ty d q = Ambiguous <-> (length (overlapping s c ty d q) >= 2)%nat) /\
+  (lookup_span s c ty d q = NotFound <-> overlapping s c ty d q = []).
+Proof. exact lookup_span_spec_p. Qed.
+Print Assumptions lookup_span_spec.
+
+Theorem overlapping_is_set_overlap : forall s c ty d q r, Forall (fun r => wf (r_ts r)) (calibs s) -> wf q ->
+  (In r (overlapping s c ty d q) <->
+   In r (calibs s) /\ r_coll r = c /\ r_ty r = ty /\ r_did r = d /\ exists x, mem x (r_ts r) /\ mem x q).
+Proof. exact overlapping_sem. Qed.
+Print Assumptions overlapping_is_set_overlap.
+
+(* at an instant (1-ns span) a lookup on a reachable state is never ambiguous and returns the valid dataset *)
+Theorem lookup_instant : forall s c ty d x, Inv s ->
+  lookup_span s c ty d (x, x + 1)%Z <> Ambiguous /\
+  (forall ds, lookup_span s c ty d (x, x + 1)%Z = Unique ds <-> valid_at s c ty d x = [ds]) /\
+  (lookup_span s c ty d (x, x + 1)%Z = NotFound <-> valid_at s c ty d x = []).
+Proof. exact lookup_instant_p. Qed.
+Print Assumptions lookup_instant.
+
+(* ---- non-vacuity: a reachable state with a refused certify, a split range and an ambiguous span lookup ---- *)
+Definition ex_state : state := mkState [(0, KCalibration); (2, KRun)] [(0, true); (2, false)] [0; 1; 2] [].
+Definition ex_history : list op :=
+  [ Certify 0 [mkRef 0 0 0; mkRef 2 0 1] (1000, 3000)%Z;
+    Certify 0 [mkRef 1 0 0] (2999, 3001)%Z;                     (* refused: 1 ns overlap *)
+    Certify 0 [mkRef 1 0 0] (3000, GEN_MAX)%Z;                  (* adjacent, unbounded end: accepted *)
+    Decertify 0 0 (1500, 2000)%Z (Some [0]);                    (* splits the first range of data ID 0 only *)
+    Certify 2 [mkRef 0 0 0] (0, 1)%Z ].                         (* refused: not a CALIBRATION collection *)
+Example ex_wf : Inv ex_state /\ Forall wf_op ex_history.
+Proof.
+  split; [exact (inv_empty _ _ _)|].
+  repeat (apply Forall_cons; [left; cbn; unfold GEN_MIN, GEN_MAX; lia|]). apply Forall_nil.
+Qed.
+Example ex_outcomes :
+  snd (step true ex_state (nth 0 ex_history (Remove 0))) = Ok /\
+  snd (step true (run true ex_state (firstn 1 ex_history)) (nth 1 ex_history (Remove 0))) = Err Conflict /\
+  snd (step true (run true ex_state (firstn 4 ex_history)) (nth 4 ex_history (Remove 0))) = Err CollectionTypeErr /\
+  calibs (run true ex_state ex_history) =
+    [ mkRow 0 0 1 2 (1000, 3000)%Z; mkRow 0 0 0 1 (3000, GEN_MAX)%Z; mkRow 0 0 0 0 (1000, 1500)%Z; mkRow 0 0 0 0 (2000, 3000)%Z ] /\
+  valid_at (run true ex_state ex_history) 0 0 0 1499 = [0] /\ valid_at (run true ex_state ex_history) 0 0 0 1500 = [] /\
+  valid_at (run true ex_state ex_history) 0 0 1 1500 = [2] /\ valid_at (run true ex_state ex_history) 0 0 0 3000 = [1] /\
+  lookup_span (run true ex_state ex_history) 0 0 0 (1400, 2100)%Z = Ambiguous /\
+  lookup_span (run true ex_state ex_history) 0 0 0 (1500, 2000)%Z = NotFound /\
+  lookup_span (run true ex_state ex_history) 0 0 0 (1999, 2001)%Z = Unique 0.
+Proof. vm_compute. repeat split; reflexivity. Qed.
